@@ -108,7 +108,9 @@ def tlc(workdir, module, cfg=None, workers=None, timeout=600, extra=None, files=
             fh.write(text)
     cfg = cfg or (module + ".cfg")
     md = tempfile.mkdtemp(prefix="md-", dir=workdir)
-    cmd = ["java", "-XX:+UseParallelGC"]
+    jtmp = os.path.join(workdir, "jtmp")          # TLC unpacks its standard modules into java.io.tmpdir: keep that in the scratch dir
+    os.makedirs(jtmp, exist_ok=True)
+    cmd = ["java", "-XX:+UseParallelGC", "-Djava.io.tmpdir=" + jtmp]
     if heap:
         cmd.append("-Xmx" + heap)
     cmd += ["-Xss64m"]
